@@ -20,22 +20,55 @@
 (***************************************************************************)
 EXTENDS BlPersist
 
-CONSTANT RefreshMode
-VARIABLE refreshed
+CONSTANTS RefreshMode,
+          DirAtStart,     \* BOOLEAN: the blocklist directory exists when New() runs (FALSE = a fresh install:
+                          \* loadInitial creates nothing, refreshRemote creates the directory a second later)
+          PersistMkdir,   \* BOOLEAN: persist creates the directory when it is missing (the code after its
+                          \* repair); FALSE = os.CreateTemp fails in a missing directory, persist logs and returns
+          LoaderExact     \* BOOLEAN: the loader inserts every line of `local` (the code after its repair);
+                          \* FALSE = it skips a line that what it has loaded so far already covers (`!b.Exists`)
+VARIABLES refreshed, dir
 
-rvars == <<vars, refreshed>>
+rvars == <<vars, refreshed, dir>>
 
-InitR == Init /\ refreshed = FALSE
+ASSUME DirAtStart \/ InitMem = {}
+
+InitR == Init /\ refreshed = FALSE /\ dir = DirAtStart
 
 Refresh ==
   /\ Alive /\ ~refreshed /\ ~tmp.ex
-  /\ refreshed' = TRUE
+  /\ refreshed' = TRUE /\ dir' = TRUE      \* refreshRemote: os.Mkdir when the directory is missing
   /\ IF RefreshMode = "rereadLocal" /\ local.ex
        THEN \E sq \in FileOrders(local.lines) : mem' = ReloadSeq(sq, mem)
        ELSE mem' = mem
   /\ UNCHANGED <<version, lastPersisted, holder, pc, opi, snap, local, tmp, crashed, hist, localVer>>
 
-NextR == (Next /\ UNCHANGED refreshed) \/ Refresh
+(* persist in a missing directory: CreateTemp fails, the error is logged, the call returns; nothing reached disk *)
+PersistFail(p) ==
+  /\ Alive /\ pc[p] = "snapped" /\ holder = 0
+  /\ snap[p].ver > lastPersisted
+  /\ Return(p)
+  /\ UNCHANGED <<mem, version, lastPersisted, holder, snap, local, tmp, crashed, hist, localVer>>
 
-SpecR == InitR /\ [][NextR]_rvars /\ \A p \in Writers : WF_rvars(Step(p) /\ UNCHANGED refreshed)
+IsCreateTemp(p) == pc[p] = "snapped" /\ pc'[p] = "tmp"
+StepR(p) ==
+  IF dir \/ PersistMkdir
+    THEN Step(p) /\ dir' = (dir \/ IsCreateTemp(p))
+    ELSE ((Step(p) /\ ~IsCreateTemp(p)) \/ PersistFail(p)) /\ UNCHANGED dir
+
+NextR == (\E p \in Writers : StepR(p) /\ UNCHANGED refreshed) \/ Refresh
+
+SpecR == InitR /\ [][NextR]_rvars /\ \A p \in Writers : WF_rvars(StepR(p) /\ UNCHANGED refreshed)
+
+(* "the persisted local list reloads to EXACTLY the in-memory list": with the skipping loader an entry that another
+   one covers is dropped when the file happens to list the covering entry first - the same answers today, not after
+   the covering entry is removed *)
+RECURSIVE ReloadSeqX(_, _)
+ReloadSeqX(sq, acc) ==
+  IF sq = << >> THEN acc
+  ELSE LET e == Head(sq)
+           acc2 == IF Refused(e) \/ (~LoaderExact /\ LineExists(acc, e)) THEN acc ELSE acc \cup {e}
+       IN ReloadSeqX(Tail(sq), acc2)
+ReloadsExactly ==
+  (AllDone /\ Alive /\ local.ex) => \A sq \in FileOrders(local.lines) : ReloadSeqX(sq, {}) = mem
 =============================================================================
